@@ -386,7 +386,7 @@ impl Property for C13 {
     }
     fn cases(&self, tier: Tier) -> u32 {
         match tier {
-            Tier::Quick => 4_000,
+            Tier::Quick => 10_000,
             Tier::Thorough => 120_000,
         }
     }
